@@ -48,6 +48,7 @@ def parseRecipe (s : String) : Option Recipe :=
     let l ← len.toNat?
     let nb' ← nb.toNat?
     pure (.xz (← parseChain c) (if l == 0 then 0 else nb') (← ns.toNat?))
+  | ["badxz", c] => do pure (.xz (← parseChain c) 1 1)     -- one Block Header with an unusable chain
   | ["lzma", f, _] => do
     match ← parseFilter f with
     | .lzma _ d .. => pure (.lzma d)
@@ -71,6 +72,8 @@ structure DState where
   kind : Nat := 0            -- init id of the coder on the handle (0 = none)
   chain : Chain := []        -- chain of the current stream encoder
   recipe : Option Recipe := none
+  notice : Nat := 0          -- LZMA_NO_CHECK (2) / LZMA_GET_CHECK (4) that the decoder reports after the Stream Header, 0 = none
+  paused : Bool := false     -- the last decode step stopped at a recoverable code
   slot : Nat := 0
 
 /-- "the return code of this step is not modelled" (only that it does nothing with the allocator) -/
@@ -83,13 +86,16 @@ def isDecoderKind (k : Nat) : Bool :=
 
 /-- what a step asks the model to do -/
 inductive Act where
-  | init (op : Op) (kind : Nat) (chain : Chain) (recipe : Option Recipe) (slot : Nat)
+  | init (op : Op) (kind : Nat) (chain : Chain) (recipe : Option Recipe) (slot : Nat) (notice : Nat := 0)
   | encode (act len : Nat)
   | iencode
   | dcode
   | upd (c : Chain)
   | plain (op : Op)            -- non-stream API: the return code is the model's
   | end_
+  | dstop
+  | dcont
+  | memlimit (n : Nat)
   | noop                       -- refused / erroneous call without allocator activity (memlimit, bad action): ret not modelled
   | bad
 
@@ -110,6 +116,15 @@ def strMeta (m : String) : Option (Nat × Option Nat × Bool) :=
       | _ => none
   | _ => none
 
+/-- which notification a stream decoder with these flags gives for this .xz recipe (TELL_NO_CHECK = 1, TELL_ANY_CHECK = 4) -/
+def noticeOf (flags : Nat) (recipe : String) : Nat :=
+  match splitOnC recipe '/' with
+  | kind :: check :: _ =>
+    if kind != "xz" && kind != "badxz" then 0
+    else if flags % 2 == 1 && check == "none" then 2
+    else if flags / 4 % 2 == 1 then 4 else 0
+  | _ => 0
+
 def parseStep (tok : String) : Act :=
   let a := splitOnC tok ':'
   let chainOr (s : String) (k : Chain → Act) : Act := match parseChain s with | some c => k c | none => .bad
@@ -122,8 +137,16 @@ def parseStep (tok : String) : Act :=
   | ["renc", c] => chainOr c fun c => .init (.rawEncoder c) 200 [] none 0
   | ["benc", c, _] => chainOr c fun c => .init (.blockEncoder c) I_BENC [] none 0
   | ["ienc", s] => match s.toNat? with | some s => .init .indexEncoder I_IENC [] none s | none => .bad
-  | ["sdec", _, r] => recOr r fun r => .init .streamDecoder I_SDEC [] (some r) 0
-  | ["adec", _, r] => recOr r fun r => .init .autoDecoder I_AUTODEC [] (some r) 0
+  | ["sdec", f, r] => recOr r fun rc => .init (.streamDecoder NOLIMIT) I_SDEC [] (some rc) 0 (noticeOf (f.toNat?.getD 0) r)
+  | ["adec", f, r] => recOr r fun rc => .init (.autoDecoder NOLIMIT) I_AUTODEC [] (some rc) 0 (noticeOf (f.toNat?.getD 0) r)
+  | ["sdecml", f, ml, r] => recOr r fun rc =>
+      match ml.toNat? with
+      | some ml => .init (.streamDecoder ml) I_SDEC [] (some rc) 0 (noticeOf (f.toNat?.getD 0) r)
+      | none => .bad
+  | ["adecml", f, ml, r] => recOr r fun rc =>
+      match ml.toNat? with
+      | some ml => .init (.autoDecoder ml) I_AUTODEC [] (some rc) 0 (noticeOf (f.toNat?.getD 0) r)
+      | none => .bad
   | ["alonedec", _, r] => recOr r fun r => .init .aloneDecoder I_ALONEDEC [] (some r) 0
   | ["lzipdec", _, r] => recOr r fun r => .init .lzipDecoder I_LZIPDEC [] (some r) 0
   | ["rdec", r] => recOr r fun r => match r with | .raw c => .init (.rawDecoder c) 201 [] (some r) 0 | _ => .bad
@@ -138,10 +161,12 @@ def parseStep (tok : String) : Act :=
   | ["sdecbad"] => .init (.badFlagsInit 0) 0 [] none 0
   | ["lzipdecbad"] => .init (.badFlagsInit 1) 0 [] none 0
   | ["adecbad"] => .init (.badFlagsInit 2) 0 [] none 0
-  | ["memlimit", _] => .noop
+  | ["memlimit", n] => match n.toNat? with | some n => .memlimit n | none => .bad
   | ["badaction"] => .noop
   | ["iencode"] => .iencode
   | ["dcode"] => .dcode
+  | ["dstop"] => .dstop
+  | ["dcont"] => .dcont
   | ["upd", c] => chainOr c .upd
   | ["end"] => .end_
   | ["ix_init", s] => match s.toNat? with | some s => .plain (.ixInit s) | none => .bad
@@ -178,7 +203,7 @@ def runM {α} (m : M α) (fail : Oracle) (h : Heap) : α × Heap := m fail h
 /-- run one step on the model; returns the expected return code -/
 def stepModel (fail : Oracle) (st : DState) (act : Act) : Ret × DState :=
   match act with
-  | .init op kind chain recipe slot =>
+  | .init op kind chain recipe slot notice =>
     -- index encoder needs its Index, index / file-info decoders need an empty slot; otherwise the harness skips
     let blocked := match op with
       | .indexEncoder => (getIx st.w.ix slot).isNone
@@ -188,9 +213,10 @@ def stepModel (fail : Oracle) (st : DState) (act : Act) : Ret × DState :=
     if blocked then (RET_SKIP, st) else
     let (r, h') := runM (runOp SZ st.w op) fail st.h
     if r.1 == OK then
-      (OK, { st with w := r.2, h := h', usable := true, finished := false, kind := kind, chain := chain, recipe := recipe, slot := slot })
+      (OK, { st with w := r.2, h := h', usable := true, finished := false, paused := false, notice := notice, kind := kind,
+                     chain := chain, recipe := recipe, slot := slot })
     else
-      (r.1, { st with w := r.2, h := h', usable := false, finished := false, kind := 0, recipe := recipe, slot := slot })
+      (r.1, { st with w := r.2, h := h', usable := false, finished := false, paused := false, kind := 0, recipe := recipe, slot := slot })
   | .encode act len =>
     if !st.usable || !isEncoderKind st.kind then (RET_SKIP, st) else
     let (r, h') := runM (runOp SZ st.w (.encode st.chain act len)) fail st.h
@@ -205,7 +231,34 @@ def stepModel (fail : Oracle) (st : DState) (act : Act) : Ret × DState :=
     | none => (RET_SKIP, st)
     | some rc =>
       let (r, h') := runM (runOp SZ st.w (.decode rc st.slot)) fail st.h
-      (r.1, { st with w := r.2, h := h', usable := false })
+      (r.1, { st with w := r.2, h := h', usable := false, paused := r.1 == MEMLIMIT_ERROR })
+  | .dstop =>
+    if !st.usable || !isDecoderKind st.kind then (RET_SKIP, st) else
+    match st.recipe with
+    | none => (RET_SKIP, st)
+    | some rc =>
+      if st.notice != 0 && (st.kind == I_SDEC || st.kind == I_AUTODEC) then
+        -- the decode stops at the notification right after the Stream Header: nothing of the Blocks has happened yet
+        -- (the auto decoder has already created its stream decoder)
+        let pre := match rc with | .xz c _ s => Recipe.xz c 0 s | r => r
+        let (r, h') := runM (runOp SZ st.w (.decode pre st.slot)) fail st.h
+        if r.1 == STREAM_END then (st.notice, { st with w := r.2, h := h', usable := false, paused := true })
+        else (r.1, { st with w := r.2, h := h', usable := false })
+      else
+        let (r, h') := runM (runOp SZ st.w (.decode rc st.slot)) fail st.h
+        (r.1, { st with w := r.2, h := h', usable := false, paused := r.1 == MEMLIMIT_ERROR })
+  | .dcont =>
+    if !st.paused || !isDecoderKind st.kind then (RET_SKIP, st) else
+    match st.recipe with
+    | none => (RET_SKIP, st)
+    | some rc =>
+      let (r, h') := runM (runOp SZ st.w (.decode rc st.slot)) fail st.h
+      (r.1, { st with w := r.2, h := h', paused := r.1 == MEMLIMIT_ERROR })
+  | .memlimit n =>
+    if st.w.strm.isNone then (RET_SKIP, st) else
+    let (r, h') := runM (runOp SZ st.w (.memlimitSet (max 1 n))) fail st.h
+    -- PROG_ERROR = a coder whose memconfig is not modelled: only "no allocator activity" is checked
+    (if r.1 == PROG_ERROR then RET_ANY else r.1, { st with w := r.2, h := h' })
   | .upd c =>
     if !(st.usable || st.finished) || !(st.kind == I_SENC || st.kind == 200 || st.kind == I_BENC) then (RET_SKIP, st) else
     if st.kind != I_SENC then (RET_ANY, st) else     -- raw / block encoder: nothing may be allocated, the code is not modelled
@@ -218,7 +271,7 @@ def stepModel (fail : Oracle) (st : DState) (act : Act) : Ret × DState :=
     (if r.1 == PROG_ERROR then RET_SKIP else r.1, { st with w := r.2, h := h' })
   | .end_ =>
     let (r, h') := runM (runOp SZ st.w .lzmaEnd) fail st.h
-    (OK, { st with w := r.2, h := h', usable := false, finished := false, kind := 0 })
+    (OK, { st with w := r.2, h := h', usable := false, finished := false, paused := false, kind := 0 })
   | .bad => (97, st)
 
 def parseHEv (s : String) : HEv :=
